@@ -48,6 +48,8 @@ LayoutsThree == {L(<<"a", "a", "b">>, <<1, 2, 2>>), L(<<"a", "a", "a">>, <<1, 2,
 LayoutsLive == {L(<<"a", "a">>, <<1, 2>>), L(<<"a", "b">>, <<1, 1>>)}
 LayoutsCtl == {L(<<"a", "a">>, <<1, 2>>), L(<<"a", "b">>, <<1, 2>>)}
 LayoutsBad == {L(<<"a", "k">>, <<1, 2>>)}
+LayoutsTwoA == {L(<<"a", "a">>, <<1, 2>>)}
+LayoutsThreeB == {L(<<"a", "a", "b">>, <<1, 2, 2>>), L(<<"a", "k", "a">>, <<1, 1, 2>>)}
 MutsNone == {"none"}
 LayoutsGenQuick == {L(<<"a", "a">>, <<1, 2>>), L(<<"a", "b">>, <<1, 1>>), L(<<"a", "k">>, <<2, 1>>)}
 LayoutsGenRt == {L(<<"a", "a">>, <<1, 2>>), L(<<"a", "b">>, <<1, 2>>), L(<<"a", "a", "b">>, <<1, 1, 2>>)}
@@ -417,6 +419,8 @@ CtlIdx == CASE mut = "nofilter" -> 21 [] mut = "firstonly" -> 22 [] mut = "dflal
             [] mut = "nobarrier" -> 24 [] mut = "nodfl" -> 25 [] OTHER -> 26
 CtlInit == \A i \in 21..26 : TLCSet(i, 0)
 CtlSeen == (CtlBroken /\ TLCGet(CtlIdx) = 0) => (TLCSet(CtlIdx, 1) /\ PrintT(<<"CTL", mut>>))
+\* states of a mutation whose violation has been seen are not explored any further
+CtlCons == TLCGet(CtlIdx) = 0
 CtlSpec == CtlInit /\ Init /\ [][Next]_vars
 
 CallsReturn == \A t \in Threads : (tpc[t] # "idle") ~> (tpc[t] = "idle")
